@@ -180,6 +180,9 @@ class OrderAnalysis:
             # a boolean filter keeps the relative order of what it keeps
             if a.kind in ('Uniq', 'Rows') and isinstance(first, ast.Compare):
                 return a
+            if a.kind in ('Uniq', 'Rows') and isinstance(idx, ast.Tuple) and all(
+                    isinstance(x, ast.Compare) or (isinstance(x, ast.Slice) and x.lower is None and x.upper is None) for x in idx.elts):
+                return a
             return None
         if a.kind in ('Uniq', 'Rows') and b.kind == 'Perm':
             return T(a.kind, wmul(a.o, b.o))
@@ -298,6 +301,14 @@ class OrderAnalysis:
             if base is not None and base.kind == 'Fresh' and it is not None and it.kind == 'Perm' \
                     and isinstance(value, ast.Call) and _leaf(value.func) == 'arange':
                 env[tgt.value.id] = T('Perm', winv(it.o))
+                self.typed_vars += 1
+                return
+        # one-hot scatter  M[np.arange(n), Inv(o)] = 1  ->  the second axis of M lists the groups in order o
+        if isinstance(tgt.value, ast.Name) and isinstance(tgt.slice, ast.Tuple) and len(tgt.slice.elts) == 2:
+            base = env.get(tgt.value.id)
+            t1 = self.ty(tgt.slice.elts[1], env)
+            if base is not None and base.kind == 'Fresh' and t1 is not None and t1.kind == 'Inv':
+                env[tgt.value.id] = T('Rows', t1.o)
                 self.typed_vars += 1
                 return
         self.ty(value, env)
